@@ -190,4 +190,44 @@ theorem runLoop_refines_simulate (n per burst : Nat) (hp : 1 ≤ per) (delay : N
   · rw [hcount]
     exact (submit_loop_terminates n per burst hp delay).2.2.2
 
+/-- more fuel does not change the answer: `none` only ever means "not ended yet" -/
+theorem runLoop_fuel_succ (n per burst : Nat) (delay : Nat → Nat) :
+    ∀ fuel s s', runLoop n per burst delay fuel s = some s' →
+      runLoop n per burst delay (fuel + 1) s = some s' := by
+  intro fuel
+  induction fuel with
+  | zero => intro s s' h; simp [runLoop] at h
+  | succ fuel ih =>
+    intro s s' h
+    rw [runLoop] at h ⊢
+    cases hs : loopStep n per burst delay s with
+    | none => rw [hs] at h; exact h
+    | some s1 => rw [hs] at h; exact ih s1 s' h
+
+theorem runLoop_fuel_mono (n per burst : Nat) (delay : Nat → Nat) (fuel extra : Nat) (s s' : LoopState)
+    (h : runLoop n per burst delay fuel s = some s') :
+    runLoop n per burst delay (fuel + extra) s = some s' := by
+  induction extra with
+  | zero => exact h
+  | succ e ih => exact runLoop_fuel_succ n per burst delay (fuel + e) s s' ih
+
+/-- the final state is one in which the pool is closed (the `break` was taken) -/
+theorem runLoop_final_closed (n per burst : Nat) (delay : Nat → Nat) :
+    ∀ fuel s s', runLoop n per burst delay fuel s = some s' → poolClosed n per s' = true := by
+  intro fuel
+  induction fuel with
+  | zero => intro s s' h; simp [runLoop] at h
+  | succ fuel ih =>
+    intro s s' h
+    rw [runLoop] at h
+    cases hs : loopStep n per burst delay s with
+    | none =>
+      rw [hs] at h
+      cases h
+      unfold loopStep at hs
+      cases hc : poolClosed n per s with
+      | true => rfl
+      | false => rw [hc] at hs; simp at hs
+    | some s1 => rw [hs] at h; exact ih s1 s' h
+
 end Pyndl
